@@ -310,22 +310,97 @@ def r12_4(ctx, interpolant=True):
     ctx.floor("R12.4", 12)
 
 
+def _dtype_name(x):
+    t = x if isinstance(x, str) else repr(x)
+    for k in ("float64", "double"):
+        if k in t:
+            return "float64"
+    return t
+
+
 def r12_5(ctx):
+    """A list / tuple `ts` reaches the solver as a tensor in y0's dtype, on y0's device, without having been rounded
+    through another dtype on the way.  Decided by evaluating the validation phase of sdeint (C19's scenario) with a list and
+    with a tuple of Python floats and following the dtype of the time tensor through every conversion: torch.tensor /
+    as_tensor without `dtype=` create it in torch's *default* dtype (float32 unless the user changed it), `.to()`,
+    `.type_as()`, `.double()` ... change it.  float64 on the way is harmless (Python floats are float64 values); the
+    default dtype is not: float64 states would step on float32-rounded times."""
+    from . import c19
+    from ..interp import Intrinsic, Obj
     rep, model = ctx.rep, ctx.model
-    rep.rule("R12.5", "list/tuple ts converted with dtype=y0.dtype, device=y0.device")
+    rep.rule("R12.5", "a list / tuple ts reaches integrate as a tensor of y0's dtype on y0's device, and on the way it is "
+                      "never held in torch's default dtype (or any dtype other than y0's or float64)")
     fi = model.func(SDEINT, "check_contract")
     rep.analysed(fi)
-    sites = [c for c in astq.calls(fi) if astq.call_name(c) in ("torch.tensor", "torch.as_tensor")
-             and c.args and ast.unparse(c.args[0]) == "ts"]
-    if not sites:
-        raise AnalysisError("check_contract no longer converts `ts` with torch.tensor", where=astq.loc(fi))
-    for c in sites:
-        dt, dev = astq.kwarg(c, "dtype"), astq.kwarg(c, "device")
-        ok = dt is not None and dev is not None and ast.unparse(dt) == "y0.dtype" and ast.unparse(dev) == "y0.device"
-        rep.check(ok, "R12.5", astq.loc(fi, c), f"{fi.key}::R12.5::ts-conversion",
-                  f"`{ast.unparse(c)}` does not use y0's dtype and device: the result would not be in y0's dtype for a "
-                  f"list `ts`", "dtype=y0.dtype, device=y0.device")
-    ctx.floor("R12.5", 1)
+
+    def tracked(values, dtype, device, passed):
+        seq = c19.TSeq(list(values))
+        seq.attrs["dtype"], seq.attrs["device"] = dtype, device
+        seq.passed = list(passed) + [dtype]
+
+        def to(it, a, k, n, f):
+            dt, dev = dtype, device
+            for x in list(a) + [k[key] for key in sorted(k)]:
+                if isinstance(x, Obj) and "dtype" in x.attrs:
+                    dt, dev = x.attrs["dtype"], x.attrs.get("device", dev)
+                elif x is None or isinstance(x, bool):
+                    continue
+                elif "device" in _dtype_name(x) or _dtype_name(x) in ("cpu", "cuda"):
+                    dev = x
+                else:
+                    dt = x
+            return tracked(values, dt, dev, seq.passed)
+        seq.attrs["to"] = Intrinsic("to", to)
+        seq.attrs["type_as"] = Intrinsic("type_as", to)
+        seq.attrs["double"] = Intrinsic("double", lambda it, a, k, n, f: tracked(values, "torch.float64", device, seq.passed))
+        seq.attrs["float"] = Intrinsic("float", lambda it, a, k, n, f: tracked(values, "torch.float32", device, seq.passed))
+        return seq
+
+    class H(c19.ContractHooks):
+        def external_call(self, interp, dotted, args, kwargs, node, fi_):
+            if dotted in ("torch.tensor", "torch.as_tensor") and args and isinstance(args[0], (list, tuple)) \
+                    and all(isinstance(x, (Fraction, int)) and not isinstance(x, bool) for x in args[0]):
+                return tracked(args[0], kwargs.get("dtype", "torch's default dtype"),
+                               kwargs.get("device", "torch's default device"), [])
+            return c19.ContractHooks.external_call(self, interp, dotted, args, kwargs, node, fi_)
+
+    for kind, ts in (("list", [Fraction(0), Fraction(1, 3), Fraction(1)]), ("tuple", (Fraction(0), Fraction(1, 3), Fraction(1)))):
+        y0 = c19.TObj((4, 3), "y0")
+        y0.attrs["dtype"], y0.attrs["device"] = "y0.dtype", "y0.device"
+        hooks = H()
+        r = c19.eval_check_contract(model, y0=y0, ts=ts, method="euler", hooks=hooks)
+        construct = f"{fi.key}::R12.5::ts-conversion::{kind}"
+        if r[0] != "ok":
+            rep.fail("R12.5", astq.loc(fi), construct, f"a {kind} `ts` is rejected: {r[1:]}")
+            continue
+        call = getattr(hooks, "integration_call", None)
+        if call is None:
+            raise AnalysisError("the validation phase no longer ends in solver.integrate / init_extra_solver_state",
+                                where=astq.loc(fi))
+        got = [x for x in call[1] + list(call[2].values()) if isinstance(x, c19.TSeq)]
+        if call[0] == "init_extra_solver_state" or not got:
+            # the time axis is the tensor whose first entry the solver is initialised at; look it up in sdeint's frame
+            got = [x for x in call[1] + list(call[2].values()) if isinstance(x, c19.TSeq)]
+        if not got or not hasattr(got[0], "passed"):
+            # the first solver call may take ts[0] only: evaluate check_contract itself and read its returned ts
+            it = Interp(model, H())
+            out = it.call_function(fi, [c19.make_user_sde(), y0, ts,
+                                        Obj("bm", attrs={"shape": (Fraction(4), Fraction(3)), "levy_area_approximation": "space-time"}),
+                                        "euler", False, None, None, False], {})
+            got = [x for x in out if isinstance(x, c19.TSeq)]
+        if not got or not hasattr(got[0], "passed"):
+            raise AnalysisError(f"R12.5: could not follow a {kind} `ts` to the tensor the solver receives",
+                                where=astq.loc(fi))
+        t = got[0]
+        passed = [_dtype_name(d) for d in t.passed]
+        ok = _dtype_name(t.attrs["dtype"]) == "y0.dtype" and _dtype_name(t.attrs["device"]) == "y0.device" \
+            and all(d in ("y0.dtype", "float64") for d in passed)
+        rep.check(ok, "R12.5", astq.loc(fi), construct,
+                  f"a {kind} `ts` reaches the solver with dtype `{t.attrs['dtype']}` on `{t.attrs['device']}` after being "
+                  f"held as {passed}: the result is not in y0's dtype / device for a list `ts`, or the times were rounded "
+                  f"through a narrower dtype first (a float64 solve would step on float32 times)",
+                  "created or converted straight into y0's dtype and device")
+    ctx.floor("R12.5", 2)
 
 
 
